@@ -492,6 +492,10 @@ def run(ctx):
         # a directory creation either fails or happens: no "happened, then failed" variant
         points = [(k, kd, wh) for k in sorted(kinds_of) for kd in kinds_of[k] for wh in ("instead", "after")
                   if not (k in mkdirs and wh == "after")]
+        if not points:
+            # the operation made no seam call at all (it failed before reaching the engine): nothing to enumerate
+            enumerated.append({"sid": t["sid"], "K": K, "points": 0, "exhaustive": True, "reference": r["outcome"][0]})
+            continue
         exhaustive = K <= maxK
         if not exhaustive:
             points = rng.sample(points, min(len(points), 16 * maxK))
